@@ -526,7 +526,9 @@ Walk:
 			//		x/ [leaf=/foo/x/]
 			// But the parent (/foo) could be a leaf. This is only valid if we have an exact match with
 			// the intermediary node (charsMatched == len(path)).
-			if strings.HasSuffix(path, "/") && parent != nil && parent.isLeaf() && charsMatched == len(path) {
+			// Only the final slash may have been consumed in the intermediary node (e.g. not "/a/"), otherwise the parent
+			// does not match the path without its trailing slash.
+			if strings.HasSuffix(path, "/") && parent != nil && parent.isLeaf() && charsMatched == len(path) && charsMatchedInNodeFound == 1 {
 				tsr = true
 				n = parent
 				// Save also a copy of the matched params, it should not allocate anything in most case.
